@@ -68,6 +68,7 @@ type LemmaRun struct {
 	MaxWallS       float64
 	NondetMapOrder bool
 	YieldAtGo      bool
+	SolverTimeoutMs int   // per-query timeout (opts.solverTimeoutMs, default 20000)
 	SolverKind     string // primary solver of this lemma ("z3" default; opts.solver = "z3-new" selects the newer z3)
 	Known          map[string]string // finding id -> status
 	pkg            *ssa.Package
@@ -184,6 +185,10 @@ func newLemmaRun(spec *LemmaSpec, tier string, known map[string]string) *LemmaRu
 		l.YieldAtGo = true
 	}
 	l.SolverKind = "z3"
+	l.SolverTimeoutMs = 20000
+	if t, _ := spec.Opts["solverTimeoutMs"].(float64); t >= 1000 && t <= 600000 {
+		l.SolverTimeoutMs = int(t)
+	}
 	if k, _ := spec.Opts["solver"].(string); k == "z3-new" {
 		l.SolverKind = k
 	}
@@ -203,13 +208,13 @@ func newWorker(prog *ssa.Program) *worker {
 }
 
 // useSolver replaces the worker's solver process when the lemma asks for another primary solver.
-func (w *worker) useSolver(kind string) {
-	if w.in.sol.kind == kind {
+func (w *worker) useSolver(kind string, timeoutMs int) {
+	if w.in.sol.kind == kind && w.in.sol.timeoutMs == timeoutMs {
 		return
 	}
 	rec := w.in.sol.record
 	w.in.sol.Close()
-	w.in.sol = NewSolver(kind, 20000)
+	w.in.sol = NewSolver(kind, timeoutMs)
 	w.in.sol.record = rec
 }
 
@@ -258,9 +263,9 @@ func (w *worker) runPath(l *LemmaRun, entry *ssa.Function, prefix []Decision) {
 	if solverLost {
 		// restart the solver; the path is inconclusive
 		rec := in.sol.record
-		kind := in.sol.kind
+		kind, tmo := in.sol.kind, in.sol.timeoutMs
 		in.sol.Close()
-		in.sol = NewSolver(kind, 20000)
+		in.sol = NewSolver(kind, tmo)
 		in.sol.record = rec
 		in.rollback()
 		l.mu.Lock()
